@@ -1088,7 +1088,29 @@ class FnTr:
                 Node('arm', e.line, pat=Node('pwild', e.line), guard=None, body=Node('bool', e.line, value=False))]
         return self.e_match(Node('match', e.line, scrut=e.scrut, arms=arms), T_BOOL)
 
+    def mentions_dropped(self, p):
+        """The pattern names an enum variant that was left out of the model (payload type outside the subset)."""
+        k = p.kind
+        if k in ('ppath', 'ptstruct', 'pstruct') and len(getattr(p, 'segs', [])) >= 2:
+            en = p.segs[-2]
+            if en == 'Self' and self.fi.self_ty is not None:
+                en = strip_ref(self.fi.self_ty)[0][1]
+            if p.segs[-1] in self.c.dropped_variants.get(en, {}):
+                return True
+        for sub in list(getattr(p, 'elems', []) or []) + [x for _, x in (getattr(p, 'fields', []) or [])] + list(getattr(p, 'alts', []) or []):
+            if hasattr(sub, 'kind') and self.mentions_dropped(sub):
+                return True
+        inner = getattr(p, 'pat', None)
+        if inner is not None and hasattr(inner, 'kind') and self.mentions_dropped(inner):
+            return True
+        return False
+
     def e_match(self, e, expected):
+        if self.c.dropped_variants and any(self.mentions_dropped(a.pat) for a in e.arms):
+            kept = [a for a in e.arms if not self.mentions_dropped(a.pat)]
+            if not kept:
+                self.err("every arm of this match is on a variant outside the model", e)
+            e = Node('match', e.line, scrut=e.scrut, arms=kept)
         s, ts = self.expr(e.scrut)
         tb, _ = strip_ref(ts)
         if tb[0] == 'intlit':
@@ -1166,16 +1188,21 @@ class FnTr:
                 if not unguarded:
                     self.err("match with guards on every arm", e)
                 return Node('match', e.line, scrut=sp, arms=unguarded)
-            a = e.arms[i]
-            if a.guard is None:
-                if self.irrefutable(a.pat):
-                    return Node('match', e.line, scrut=sp, arms=[a])
-                return Node('match', e.line, scrut=sp, arms=[a, wild(build(i + 1))])
-            body = Node('if', a.line, cond=a.guard, then=self.as_block(a.body), els=self.as_block(build(i + 1)))
+            # the run of unguarded arms up to the next guarded one goes into ONE match (one nested match per
+            # arm made a 120-arm layout match with a late guarded arm take minutes to compile)
+            j = i
+            while e.arms[j].guard is None:
+                j += 1
+            before = e.arms[i:j]
+            for k, b in enumerate(before):
+                if self.irrefutable(b.pat):
+                    return Node('match', e.line, scrut=sp, arms=before[:k + 1])
+            a = e.arms[j]
+            body = Node('if', a.line, cond=a.guard, then=self.as_block(a.body), els=self.as_block(build(j + 1)))
             arm = Node('arm', a.line, pat=a.pat, guard=None, body=body)
             if self.irrefutable(a.pat):
-                return Node('match', e.line, scrut=sp, arms=[arm])
-            return Node('match', e.line, scrut=sp, arms=[arm, wild(build(i + 1))])
+                return Node('match', e.line, scrut=sp, arms=before + [arm])
+            return Node('match', e.line, scrut=sp, arms=before + [arm, wild(build(j + 1))])
         return self.e_match(build(0), expected)
 
     def int_pat_cond(self, p, s, ty):
